@@ -28,6 +28,16 @@ func genC03(r *rngT, n int, tier string) {
 					execOp(fmt.Sprintf("msgenc %s %d %s %s", dn, m.GetID(), ver, encVals(v)))
 				}
 			}
+			// "decoding reads the same layout": the marker payload and successively shorter cuts of it through the SAME codec
+			// (what a long payload left behind must not show in a shorter one), then longer again
+			rw := getDialectRW(dn).GetMessage(m.GetID())
+			p := rw.Write(markerValue(m), true).Payload
+			for _, l := range []int{len(p), len(p) * 2 / 3, len(p) / 3, 1, 0, len(p) / 2, len(p)} {
+				execOp(fmt.Sprintf("msgdec %s %d v2 %s", dn, m.GetID(), hx(p[:l])))
+			}
+			p1 := rw.Write(markerValue(m), false).Payload
+			execOp(fmt.Sprintf("msgdec %s %d v1 %s", dn, m.GetID(), hx(p1)))
+			stat("c03-decode-cuts")
 		}
 	}
 }
